@@ -105,7 +105,7 @@ class C03(core.Prop):
             # the registry also holds a stand-alone oneLight message (same tag as the part of that name)
             msgs.append({"kind": "oneLight", "attrs": {"name": rng.choice(msggen.NAMES)}, "value": rng.choice(msggen.STATES), "children": None})
         # long child texts (around and beyond 4 KiB), to be spelled with the text on a line of its own as well
-        for n in ([100, 4090, 4097, 5000] if tier == "quick" else [100, 1000, 4000, 4090, 4095, 4096, 4097, 4100, 5000, 9000, 70000]):
+        for n in ([100, 4090, 4097, 5000] if tier == "quick" else [100, 1000, 4000, 4090, 4095, 4096, 4097, 4100, 5000, 9000, 12000]):
             for kind in ("setTextVector", "newTextVector", "defTextVector", "setBLOBVector"):
                 m = rich_message(rng, kind)
                 child = msggen.GRAMMAR[kind][3]
